@@ -107,6 +107,9 @@ def body(chk):
     # exactly when another attempt follows (else a final failure is counted as retried and the run passes)
     from checks import attempt_driver
     attempt_driver.run(chk, 'C01')
+    # "failed if a parser error was delivered": the ingester must hand every parser error it consumes to the writers
+    from checks import ingest
+    ingest.obligations(chk, 'C01')
 
 
 def confirm_hook_retry(chk, o):
